@@ -155,7 +155,7 @@ Proof. vm_compute. auto 10. Qed.
 
 (* the state in which a request (sweep, ack) ends after its pass is the result of a WDone iteration: by
    C04_wake_done_meaning the key then has no manager / is not `waited` / has an empty queue / has a live head waiter
-   that doLock does not admit *)
+   that doLock does not accept *)
 Theorem C04_finish_ends_done : forall s ev w s' evs,
   finish (s, ev, Some w) = (s', evs) -> exists s0, wake_iter s0 w = (s', [], WDone).
 Proof. exact finish_ends_done. Qed.
